@@ -40,6 +40,18 @@ Theorem C03_excluded_edges_abort_only :
   forall a b, In (a, b) excluded -> In b abort_only.
 Proof. exact excluded_abort_only. Qed.
 
+(* the entry points are functions whose bodies are in the graph (no theorem
+   above is vacuous because an entry is a leaf without edges), and each of the
+   seven groups build / read / match / dispatch / sugar / reply / link is
+   non-empty and part of [entries] *)
+Theorem C03_entries_defined : forall e, In e entries -> defined direct e.
+Proof. exact entries_defined. Qed.
+
+Theorem C03_entry_groups :
+  map fst entry_groups = [1; 2; 3; 4; 5; 6; 7] /\
+  forall g l, In (g, l) entry_groups -> l <> [] /\ forall e, In e l -> In e entries.
+Proof. exact groups_are_entries. Qed.
+
 (* non-vacuity: Ports::dispatch is an entry point and does reach the message
    builder, by a path whose first edge exists only through the table *)
 Theorem C03_nonvacuous :
